@@ -991,6 +991,26 @@ func (x *fnCtx) evalSpecCall(env *specEnv, e *SExpr) *Val {
 	case "closed":
 		ch := ev(0)
 		return scalar(tBool, Select(hget(env.heap, "$chanclosed", ArrSort(SInt, SBool)), ch.L[0]))
+	case "rangeslice":
+		// rangeslice(xs): the slice the current loop iterates over. For `for i := range xs` Go
+		// evaluates xs once before the loop: that captured value; for any other loop form: xs as
+		// it is now. Lets one invariant ("the loop still walks the live slice") fit both forms.
+		cur := ev(0)
+		h := x.evalHeader
+		if h != nil && len(h.Instrs) > 0 && env.fr != nil {
+			if ifi, ok := h.Instrs[len(h.Instrs)-1].(*ssa.If); ok {
+				if bo, ok := ifi.Cond.(*ssa.BinOp); ok && bo.Op == token.LSS {
+					if call, ok := bo.Y.(*ssa.Call); ok {
+						if b, ok := call.Call.Value.(*ssa.Builtin); ok && b.Name() == "len" && len(call.Call.Args) == 1 && call.Block() != h {
+							if types.Identical(call.Call.Args[0].Type(), cur.T) {
+								return x.getVal(env.st, env.fr, call.Call.Args[0])
+							}
+						}
+					}
+				}
+			}
+		}
+		return cur
 	case "bound":
 		// bound(name): the trace binding `name` fired on this path
 		if args[0].Kind != "ident" {
